@@ -1,176 +1,27 @@
-(* Skel.v -- theorems about the definitions of SkelDefs.v (see the comment there) *)
+(* Skel.v -- the full tie: all primitives (see SkelDefs.v for the definitions, SkelTac.v for the scripts) *)
 From CacheV Require Import Base SpecMap Client CacheModel CacheOfModel Ops.
 From CacheV.gen Require Import Params SrcFacts.
 From CacheV.proofs Require Export SkelDefs.
+From CacheV.proofs Require Import SkelTac.
 From Coq Require Import String ZArith List Lia Bool.
 Import ListNotations.
 Local Open Scope nat_scope.
 
-(* ------------------------------------------------------------------ *)
-(* lemmas for the loops *)
-
-Lemma take_none_some (b : budget) (t : stok) b' :
-  take b t = Some b' -> In (t, None) b -> (forall n, In (t, Some n) b -> False) -> b' = b.
-Proof.
-  revert b'. induction b as [|[t' n] r IH]; intros b' H Hin Hno; [discriminate|].
-  cbn [take] in H. destruct (stok_beq t t') eqn:E.
-  - apply internal_stok_dec_bl in E. subst t'. destruct n as [[|m]|].
-    + discriminate.
-    + exfalso. apply (Hno (S m)). left. reflexivity.
-    + congruence.
-  - destruct (take r t) as [r'|] eqn:Er; [|discriminate]. inversion H; subst b'. f_equal.
-    apply IH; [reflexivity| |].
-    + destruct Hin as [Hin|Hin]; [|exact Hin]. inversion Hin; subst.
-      rewrite (internal_stok_dec_lb t t eq_refl) in E. discriminate.
-    + intros n0 Hn. apply (Hno n0). right. exact Hn.
-Qed.
-
-Section Loops.
-  Context {K V : Type}.
-  Variable eqd : forall a b : K, {a = b} + {a <> b}.
-  Variable zero : V.
-
-  (* a budget in which t is unlimited *)
-  Definition unl (b : budget) (t : stok) : Prop := take b t = Some b.
-
-  Lemma fire_all_bounded {R} cf b c l (p : prog K V R) :
-    unl b TFire -> bounded cf b p -> bounded cf b (CacheModel.fire_all c l p).
-  Proof.
-    intros Hf Hp. induction l as [|[k v] t IH]; cbn [CacheModel.fire_all]; [exact Hp|].
-    cbn [bounded tk_ev]. rewrite Hf. exact IH.
-  Qed.
-
-  Lemma fire_all_bounded_of {R} cf b c l (p : prog K V R) :
-    unl b TFire -> bounded cf b p -> bounded cf b (CacheOfModel.fire_all c l p).
-  Proof.
-    intros Hf Hp. induction l as [|[k v] t IH]; cbn [CacheOfModel.fire_all]; [exact Hp|].
-    cbn [bounded tk_ev]. rewrite Hf. exact IH.
-  Qed.
-
-End Loops.
-
-(* ------------------------------------------------------------------ *)
-(* direction 1: every path of every model program stays within the source budget *)
-
-Ltac lookup_budget :=
-  match goal with
-  | |- context [lookup_s ?n ?t] =>
-      let x := eval vm_compute in (lookup_s n t) in change (lookup_s n t) with x
-  end.
-
-Ltac crunch :=
-  repeat (first
-    [ progress intros
-    | match goal with
-      | |- _ /\ _ => split
-      | |- True => exact I
-      | |- _ <= _ => solve [cbn; lia]
-      end
-    | progress cbn
-    | match goal with
-      | |- context [if ?c then _ else _] => destruct c
-      | |- context [match ?x with _ => _ end] => destruct x
-      end ]).
 
 Section Bounded.
   Context {K V : Type}.
   Variable eqd : forall a b : K, {a = b} + {a <> b}.
   Variable zero : V.
 
-  Lemma delexp_loop_bounded cf b ec now (snap : list (K * item V)) (ev : list (K * V)) :
-    unl b TCompute -> unl b TFire ->
-    bounded cf b (CacheModel.delexp_loop zero ec now snap ev).
-  Proof.
-    intros Hc Hf. revert ev. induction snap as [|[k i] t IH]; intros ev; cbn [CacheModel.delexp_loop].
-    - destruct ec as [c|]; [|exact I]. apply fire_all_bounded; [exact Hf|exact I].
-    - destruct (expiredWithNow now i); [|apply IH].
-      cbn [bounded tk_of]. rewrite Hc. split.
-      + cbn [closure_ok]. intros e x. unfold CacheModel.delexp_closure.
-        destruct x as [cur|]; [destruct (expiredWithNow now cur)|]; cbn; lia.
-      + intros r. destruct r as [|o ok a|n|l]; try apply IH.
-        destruct a as [a|]; [|apply IH].
-        destruct (a_ok a); [|apply IH]. destruct (a_old a); [|apply IH]. destruct ec; apply IH.
-  Qed.
-
-  Lemma range_loop_bounded cf b now (f : K -> V -> bool) (l : list (K * item V)) (vis : list (K * V)) :
-    unl b TUserFn -> bounded cf b (CacheModel.range_loop now f l vis).
-  Proof.
-    intros Hu. revert vis. induction l as [|[k i] t IH]; intros vis; cbn [CacheModel.range_loop]; [exact I|].
-    destruct (expiredWithNow now i); [apply IH|].
-    cbn [bounded tk_ev]. rewrite Hu. destruct (f k (iv i)); [apply IH|exact I].
-  Qed.
-
   Theorem cache_within_budget (o : cop K V) :
     is_call o -> within budgets_map (prog_cache eqd zero) o.
-  Proof.
-    intros Hcall. unfold within. destruct o; cbn [opname]; lookup_budget; cbn [prog_cache]; try (exfalso; exact Hcall).
-    all: try (unfold CacheModel.SetDefault, CacheModel.SetForever, CacheModel.Set_, CacheModel.expiration_prog,
-                CacheModel.Get, CacheModel.GetWithExpiration, CacheModel.GetWithTTL, CacheModel.get, CacheModel.bind,
-                CacheModel.GetOrSet, CacheModel.GetAndSet, CacheModel.GetAndRefresh, CacheModel.GetOrCompute,
-                CacheModel.Compute, CacheModel.GetAndDelete, CacheModel.Delete, CacheModel.fire, CacheModel.get_closure,
-                CacheModel.Clear, CacheModel.Count, CacheModel.GetDefaultExpiration, CacheModel.SetDefaultExpiration,
-                CacheModel.GetEvictedCallback, CacheModel.SetEvictedCallback, CacheModel.expired, CacheModel.expiration_env).
-    all: try solve [crunch].
-    - unfold CacheModel.GetAndDelete, CacheModel.bind, CacheModel.fire. crunch.
-    - unfold CacheModel.DeleteExpired. cbn. intros ec now. split; [exact I|]. intros r. destruct r; try exact I.
-      apply delexp_loop_bounded; reflexivity.
-    - unfold CacheModel.Range. destruct f as [f|]; [|exact I]. cbn. intros now. split; [exact I|]. intros r. destruct r; try exact I.
-      apply range_loop_bounded; reflexivity.
-    - unfold CacheModel.Items, CacheModel.Range. cbn. split; [exact I|]. intros _ now. split; [exact I|]. intros r. destruct r; try exact I.
-      apply range_loop_bounded; reflexivity.
-  Qed.
-End Bounded.
-
-Section BoundedOf.
-  Context {K V : Type}.
-  Variable eqd : forall a b : K, {a = b} + {a <> b}.
-  Variable zero : V.
-
-  Lemma delexp_loop_bounded_of cf b ec now (snap : list (K * item V)) (ev : list (K * V)) :
-    unl b TCompute -> unl b TFire ->
-    bounded cf b (CacheOfModel.delexp_loop zero ec now snap ev).
-  Proof.
-    intros Hc Hf. revert ev. induction snap as [|[k i] t IH]; intros ev; cbn [CacheOfModel.delexp_loop].
-    - destruct ec as [c|]; [|exact I]. apply fire_all_bounded_of; [exact Hf|exact I].
-    - destruct (expiredWithNow now i); [|apply IH].
-      cbn [bounded tk_of]. rewrite Hc. split.
-      + cbn [closure_ok]. intros e x. unfold CacheOfModel.delexp_closure, CacheOfModel.arg.
-        destruct x as [cur|]; cbn; [destruct (expiredWithNow now cur)|]; cbn; lia.
-      + intros r. destruct r as [|o ok a|n|l]; try apply IH.
-        destruct a as [a|]; [|apply IH].
-        destruct (a_ok a); [|apply IH]. destruct (a_old a); [|apply IH]. destruct ec; apply IH.
-  Qed.
-
-  Lemma range_loop_bounded_of cf b now (f : K -> V -> bool) (l : list (K * item V)) (vis : list (K * V)) :
-    unl b TUserFn -> bounded cf b (CacheOfModel.range_loop now f l vis).
-  Proof.
-    intros Hu. revert vis. induction l as [|[k i] t IH]; intros vis; cbn [CacheOfModel.range_loop]; [exact I|].
-    destruct (expiredWithNow now i); [apply IH|].
-    cbn [bounded tk_ev]. rewrite Hu. destruct (f k (iv i)); [apply IH|exact I].
-  Qed.
+  Proof. solve_within_cache. Qed.
 
   Theorem cacheof_within_budget (o : cop K V) :
     is_call o -> within budgets_mapof (prog_cacheof eqd zero) o.
-  Proof.
-    intros Hcall. unfold within. destruct o; cbn [opname]; lookup_budget; cbn [prog_cacheof]; try (exfalso; exact Hcall).
-    all: try (unfold CacheOfModel.SetDefault, CacheOfModel.SetForever, CacheOfModel.Set_, CacheOfModel.expiration_prog,
-                CacheOfModel.Get, CacheOfModel.GetWithExpiration, CacheOfModel.GetWithTTL, CacheOfModel.get, CacheOfModel.bind,
-                CacheOfModel.GetOrSet, CacheOfModel.GetAndSet, CacheOfModel.GetAndRefresh, CacheOfModel.GetOrCompute,
-                CacheOfModel.Compute, CacheOfModel.fire,
-                CacheOfModel.Clear, CacheOfModel.Count, CacheOfModel.GetDefaultExpiration, CacheOfModel.SetDefaultExpiration,
-                CacheOfModel.GetEvictedCallback, CacheOfModel.SetEvictedCallback, CacheOfModel.expired, CacheOfModel.expiration_env,
-                CacheOfModel.arg).
-    all: try solve [crunch].
-    - unfold CacheOfModel.GetAndDelete, CacheOfModel.fire. crunch.
-    - unfold CacheOfModel.Delete, CacheOfModel.GetAndDelete, CacheOfModel.bind, CacheOfModel.fire. crunch.
-    - unfold CacheOfModel.DeleteExpired. cbn. intros ec now. split; [exact I|]. intros r. destruct r; try exact I.
-      apply delexp_loop_bounded_of; reflexivity.
-    - unfold CacheOfModel.Range. destruct f as [f|]; [|exact I]. cbn. intros now. split; [exact I|]. intros r. destruct r; try exact I.
-      apply range_loop_bounded_of; reflexivity.
-    - unfold CacheOfModel.Items, CacheOfModel.Range. cbn. split; [exact I|]. intros _ now. split; [exact I|]. intros r. destruct r; try exact I.
-      apply range_loop_bounded_of; reflexivity.
-  Qed.
-End BoundedOf.
+  Proof. solve_within_cacheof. Qed.
+End Bounded.
+
 
 
 Local Open Scope Z_scope.
@@ -199,48 +50,7 @@ Proof. reflexivity. Qed.
 Theorem no_probe_exceeds : exceeds budgets_map (prog_cache Z.eq_dec 0) = [] /\ exceeds budgets_mapof (prog_cacheof Z.eq_dec 0) = [].
 Proof. split; vm_compute; reflexivity. Qed.
 
-(* ------------------------------------------------------------------ *)
-(* facts about the translated source that the properties name *)
-
 Local Open Scope nat_scope.
-
-(* C02's mechanism: each read-modify-write method is ONE Compute on the map and nothing else outside it *)
-Definition rmw_methods : list string := ["GetOrSet"; "GetAndSet"; "GetAndRefresh"; "GetOrCompute"; "Compute"]%string.
-
-Definition single_compute (tbl : list (string * (budget * nat))) : bool :=
-  forallb (fun m => match lookup_s m tbl with
-                    | Some ([(TCompute, Some 1)], _) => true
-                    | _ => false
-                    end) rmw_methods.
-
-Theorem rmw_single_compute : single_compute budgets_map = true /\ single_compute budgets_mapof = true.
-Proof. split; vm_compute; reflexivity. Qed.
-
-(* C05: no closure of the source can invoke a user function twice, and only GetOrCompute / Compute have one *)
-Definition fn_budget_ok (tbl : list (string * (budget * nat))) : bool :=
-  forallb (fun e => let '(n, (_, cf)) := e in
-                    if String.eqb n "GetOrCompute" || String.eqb n "Compute" then Nat.eqb cf 1 else Nat.eqb cf 0) tbl.
-
-Theorem fn_once_per_closure : fn_budget_ok budgets_map = true /\ fn_budget_ok budgets_mapof = true.
-Proof. split; vm_compute; reflexivity. Qed.
-
-(* C06 / C13: the translator met nothing it could not account for -- in particular no closure run under a
-   bucket lock fires the evicted callback or calls back into the map, and no goroutine is started by a method *)
-Definition no_unknown (tbl : list (string * (budget * nat))) : bool :=
-  forallb (fun e => forallb (fun tn => negb (stok_beq (fst tn) TUnknown)) (fst (snd e))) tbl.
-
-Theorem source_fully_translated : no_unknown budgets_map = true /\ no_unknown budgets_mapof = true.
-Proof. split; vm_compute; reflexivity. Qed.
-
-(* C06: the callback is fired by removers only *)
-Definition fires (tbl : list (string * (budget * nat))) : list string :=
-  map fst (filter (fun e => existsb (fun tn => stok_beq (fst tn) TFire) (fst (snd e))) tbl).
-
-Definition remover_names : list string := ["Delete"; "DeleteExpired"; "GetAndDelete"]%string.
-
-Theorem only_removers_fire :
-  fires budgets_map = remover_names /\ fires budgets_mapof = remover_names.
-Proof. split; vm_compute; reflexivity. Qed.
 
 (* non-vacuity of [bounded]: a program that makes two map calls is NOT within a budget of one *)
 Example bounded_discriminates :
